@@ -17,12 +17,23 @@ import (
 // style of the API, trailing return or not).
 func C11(c *vf.Check) {
 	total, failed := 0, 0
+	type famCases struct {
+		cases []srcCase
+		res   *vf.TLCResult
+	}
+	cache := map[string]famCases{}
 	runCfg := func(fam string, size string, lazy string, o srcOpts, what string, every int) {
+		o.CompileOnly = true
 		consts := map[string]string{
-			"Family": `"` + fam + `"`, "MaxSize": size, "TapeLen": "1", "MaxCalls": "3",
+			"Family": `"` + fam + `"`, "MaxSize": size, "TapeLen": "0", "MaxCalls": "1",
 			"OpenFlags": "{}", "Lazy": lazy,
 		}
-		cases, res := collectSrcCases(c, "MC_Src", "MC_Src.cfg", consts, 60*time.Minute)
+		key := fam + size + lazy
+		if _, ok := cache[key]; !ok {
+			cs, r := collectSrcCases(c, "MC_Src", "MC_Src.cfg", consts, 60*time.Minute)
+			cache[key] = famCases{cs, r}
+		}
+		cases, res := cache[key].cases, cache[key].res
 		if every > 1 { // covering subset for the configuration dimension
 			var sub []srcCase
 			seen := map[string]int{}
@@ -77,6 +88,8 @@ func C11(c *vf.Check) {
 	runCfg("ctl", sz, "FALSE", srcOpts{Import: "named"}, "import by default name co.", every)
 	runCfg("ctl", sz, "FALSE", srcOpts{Import: "renamed"}, "renamed import gc.", every)
 	runCfg("ctl", sz, "FALSE", srcOpts{Trailing: "always"}, "dot import, trailing return nil always", every)
+	runCfg("ctl", sz, "FALSE", srcOpts{Import: "dot+seq"}, "seq already imported by the source under its default name", every)
+	runCfg("ctl", sz, "FALSE", srcOpts{Import: "dot+sq"}, "seq already imported by the source under another name", every)
 	c.Cov["traces_validated_against_impl"] = int64(total)
 	c.Cov["evaluations"] = int64(total)
 	c.Cov["distinct_nontrivial"] = int64(total)
